@@ -99,6 +99,33 @@ def check_validators(ctx, w, v, t, hint, siblings, path):
                 return
 
 
+def stack_pops_alias_built_value(w, p, path):
+    """Is this refinement violation of a stack-mapped program the KNOWN one?  The stack machine ignores a field's refinement exactly
+    when the field's annotation object is itself a key of its stacks (`argt in stacks`: real annotation objects, re-declared
+    fields, refinements that compare equal across resolutions); where the annotation is a string resolved anew (an unequal
+    object) it selects the value with validate(), and a violation is judged like anywhere else."""
+    import re
+    from geneticengine.grammar.utils import get_arguments
+
+    try:
+        node, field = None, None
+        cur = p
+        for name, li, ti in re.findall(r"\.(\w+)|\[(\d+)\]|\((\d+)\)", path):
+            if name:
+                node, field = cur, name
+                n = w.ref.cls_of(cur)
+                cur = w.ref.field(cur, n, name)
+            else:
+                cur = cur[int(li or ti)]
+                node, field = None, None  # the violating value is an element below the field: not decidable here
+        if node is None:
+            return bool(not w.spec.get("future_annotations")) and not getattr(w, "is_corpus", False)
+        hint = dict(get_arguments(type(node)))[field]
+        return hint in set(w.grammar.get_all_mentioned_symbols())
+    except Exception:
+        return True
+
+
 def check_program(ctx, w, p, how):
     if w.ref.conforms(p, w.start_type()) is not None:
         ctx.stat("foreign_failure:ill-typed")  # C01's business
@@ -106,7 +133,8 @@ def check_program(ctx, w, p, how):
     bad = w.ref.check_refinements(p, w.start_type())
     ctx.stat("programs_checked")
     for cause, path in bad[:3]:
-        ctx.violate(f"C02/refinement/{w.rep_kind}/{'annotated-symbol-built-without-its-refinement' if w.rep_kind == 'stack' else cause}",
+        known = w.rep_kind == "stack" and stack_pops_alias_built_value(w, p, path)
+        ctx.violate(f"C02/refinement/{w.rep_kind}/{'annotated-symbol-built-without-its-refinement' if known else cause}",
                     f"{how} on {w.rep_kind} produced a value violating its refinement: {cause} at {path}; program={render_value(p, w.ref)}")
     if not bad:
         check_validators(ctx, w, p, w.start_type(), w.built.start(), {}, "$")
@@ -212,6 +240,18 @@ def run(ctx):
                         if m.ok:
                             check_program(ctx, w, m.phenotype, f"{res.kind}+map")
                             ctx.nontrivial = True
+            if w.rep_kind == "stack" and not ctx.violations:
+                # most stack genotypes fail to map at all ("genome not enough"): many cheap attempts, so that stack-mapped programs
+                # with several refined fields are actually seen
+                for _ in range(40):
+                    res = w.op_create()
+                    for idx in res.new:
+                        m = w.op_map(idx)
+                        if m.ok:
+                            ctx.stat("stack_programs_from_the_extra_attempts")
+                            check_program(ctx, w, m.phenotype, "create+map")
+                    if ctx.violations:
+                        break
         direct_generation(ctx, w)
     finally:
         w.dispose()
